@@ -71,6 +71,8 @@ def sample_kwargs(cfg, rng=None, callback=None, resume_from=None, ckpt_path=None
     if s in ("smc", "minipcn_smc"):
         kw["rng"] = rng if rng is not None else np.random.default_rng(cfg["rng_seed"])
         kw["sampler_kwargs"] = {"n_steps": k}
+        if cfg.get("n_final_steps"):
+            kw["sampler_kwargs"]["n_final_steps"] = int(cfg["n_final_steps"])  # kernel steps of the final enlargement only
     elif s == "emcee_smc":
         kw["sampler_kwargs"] = {"nsteps": k, "progress": False}
     elif s == "blackjax_smc":
